@@ -455,10 +455,10 @@ def election_boundary_reorg(rng, boundary=None):
 
 
 def generate_election(rng, quick):
-    out = [election_scenario(rng, with_fork=False, bpcount_change=False), election_scenario(rng), election_scenario(rng),
+    out = [election_scenario(rng, with_fork=rng.random() < 0.5, bpcount_change=False), election_scenario(rng),
            election_boundary_reorg(rng, 300), election_boundary_reorg(rng, 400)]
     if not quick:
-        out += [election_scenario(rng) for _ in range(20)] + [election_boundary_reorg(rng) for _ in range(10)]
+        out += [election_scenario(rng, with_fork=False, bpcount_change=False)] + [election_scenario(rng) for _ in range(20)] + [election_boundary_reorg(rng) for _ in range(10)]
     return out
 
 
@@ -587,25 +587,25 @@ def generate(rng, quick):
         for variant in (range(0, 16, 5) if quick else range(16)):
             sc.append(reorg_orderings(n, variant))
     if quick:
-        sc += exhaustive_linear(1, 4) + exhaustive_linear(2, 5) + exhaustive_linear(3, 4)
+        sc += exhaustive_linear(1, 4) + exhaustive_linear(2, 5)
     else:
-        sc += exhaustive_linear(2, 9) + exhaustive_linear(3, 7) + exhaustive_linear(4, 5)
+        sc += exhaustive_linear(1, 6) + exhaustive_linear(2, 9) + exhaustive_linear(3, 7) + exhaustive_linear(4, 5)
     # exhaustive-ish small family: round robin for every producer count, restart after every block
     for n in range(1, 8):
         sc.append(round_robin(n, 4 * n + 6))
     k = 1 if quick else 12
-    for _ in range(10 * k):
+    for _ in range(6 * k):
         n = rng.choice([1, 2, 3, 4, 5, 6, 7])
         sc.append(linear(rng, n, rng.randrange(10, 45), restart=rng.choice(["none", "shadow", "real"])))
-    for _ in range(6 * k):
+    for _ in range(4 * k):
         sc.append(linear(rng, rng.choice([3, 4, 5, 6, 7]), rng.randrange(10, 40), restart="shadow", byz=0.3))
-    for _ in range(14 * k):
+    for _ in range(10 * k):
         n = rng.choice([1, 2, 3, 4, 4, 4, 5, 6, 7])
         sc.append(forks(rng, n, rng.randrange(2, 6), restart=rng.choice(["none", "mixed"])))
-    for _ in range(8 * k):
+    for _ in range(5 * k):
         n = rng.choice([3, 4, 4, 5, 6, 7])
         sc.append(forks(rng, n, rng.randrange(2, 6), byz=0.3, restart=rng.choice(["none", "mixed", "shadow"])))
-    for _ in range(8 * k):
+    for _ in range(6 * k):
         sc.append(fail_scenario(rng, rng.choice([1, 2, 3, 4, 4, 5]), byz=rng.choice([0.0, 0.0, 0.3]), restart=rng.random() < 0.5))
     for _ in range(3 * k):
         sc.append(gc_scenario(rng, rng.choice([3, 4, 5, 7]), rng.randrange(10, 30)))
